@@ -349,7 +349,8 @@ class GraphQLSchema:
             add = types.add
             if is_union_type(abstract_type):
                 for type_ in abstract_type.types:
-                    add(type_.name)
+                    if not is_wrapping_type(type_):
+                        add(type_.name)
             else:
                 implementations = self.get_implementations(
                     cast("GraphQLInterfaceType", abstract_type)
